@@ -141,6 +141,109 @@ def correspond(ctx):
     return dis
 
 
+class RefusingStream(io.BytesIO):
+    """refuses (raises OSError, storing nothing) the k-th write that is at least `big` bytes long: a transient I/O fault"""
+
+    def __init__(self, k, big):
+        super().__init__()
+        self.k, self.big, self.seen = k, big, 0
+
+    def write(self, b):
+        if memoryview(b).nbytes >= self.big:
+            self.seen += 1
+            if self.seen == self.k:
+                raise OSError(28, "No space left on device (harness)")
+        return super().write(b)
+
+
+def faulted_sessions(ctx):
+    """files laspy produces in sessions that are not the plain ones: one write_points refused by the destination (the caller catches the
+    error and goes on, or the exception leaves the with-block, which closes the writer); strided / reversed / 0-d chunks; an appender whose
+    EVLR list was edited before closing. Every such file must still satisfy the header equalities."""
+    import laspy
+    from laspy.vlrs.vlrlist import VLRList
+    rng = ctx.rng
+    out = []
+    for _ in range(ctx.n(60, 600)):
+        h = lasio.rand_header(rng)
+        if rng.random() < 0.3:
+            lasio.add_extra_dims(rng, h)
+        ps = h.point_format.size
+        chunks = [lasio.rand_points(rng, h, rng.choice([1, 2, 5, 9])) for _ in range(rng.choice([1, 2, 3, 4]))]
+        evl = VLRList([lasio.rand_vlr(rng) for _ in range(rng.choice([0, 1, 2]))]) if h.version.minor >= 4 else None
+        desc = {"version": str(h.version), "format": h.point_format.id, "chunks": [len(c) for c in chunks], "evlrs": len(evl or [])}
+        mode = rng.choice(["refused-caught", "refused-with", "shapes", "appender-evlrs"])
+        try:
+            if mode in ("refused-caught", "refused-with"):
+                k = rng.randrange(1, len(chunks) + 1)
+                st = RefusingStream(k, ps)      # header/VLR writes are shorter than... not necessarily: count only record-sized writes of chunks
+                st.big = 10 ** 9
+                w = laspy.LasWriter(st, h, closefd=False)
+                st.big = 1
+                st.seen = 0
+                accepted = b""
+                if mode == "refused-caught":
+                    for c in chunks:
+                        try:
+                            w.write_points(c)
+                            accepted += lasio.rec_bytes(c)
+                        except OSError:
+                            pass
+                    st.big = 10 ** 9
+                    if evl:
+                        w.write_evlrs(evl)
+                    w.close()
+                else:
+                    try:
+                        with w:
+                            for c in chunks:
+                                w.write_points(c)
+                                accepted += lasio.rec_bytes(c)
+                    except OSError:
+                        st.big = 10 ** 9
+                    st.big = 10 ** 9
+                    if not w.done:
+                        w.close()
+                out.append((f"writer session with write {k} refused ({mode})", dict(desc, refused_write=k), st.getvalue(), accepted))
+            elif mode == "shapes":
+                bio = io.BytesIO()
+                want = b""
+                shapes = []
+                with laspy.LasWriter(bio, h, closefd=False) as w:
+                    for c in chunks:
+                        sh = rng.choice(["[::2]", "[::-1]", "[0]", "[1::3]", "whole"])
+                        v = {"[::2]": lambda r: r[::2], "[::-1]": lambda r: r[::-1], "[0]": lambda r: r[0], "[1::3]": lambda r: r[1::3], "whole": lambda r: r}[sh](c)
+                        shapes.append(sh)
+                        w.write_points(v)
+                        want += lasio.rec_bytes(v)
+                    if evl:
+                        w.write_evlrs(evl)
+                out.append(("writer session with strided/reversed/0-d chunks", dict(desc, shapes=shapes), bio.getvalue(), want))
+            else:
+                if h.version.minor < 4:
+                    continue
+                base = lasio.write_las(h, chunks[0], VLRList([lasio.rand_vlr(rng) for _ in range(rng.choice([1, 2]))]))
+                bio = io.BytesIO(base)
+                edit = rng.choice(["append", "pop", "clear", "replace"])
+                want = lasio.rec_bytes(chunks[0])
+                with laspy.open(bio, mode="a", closefd=False) as ap:
+                    if edit == "append":
+                        ap.evlrs.append(lasio.rand_vlr(rng))
+                    elif edit == "pop":
+                        ap.evlrs.pop()
+                    elif edit == "clear":
+                        ap.evlrs.clear()
+                    else:
+                        ap.evlrs = VLRList([lasio.rand_vlr(rng) for _ in range(rng.choice([1, 3]))])
+                    for c in chunks[1:]:
+                        ap.append_points(c)
+                        want += lasio.rec_bytes(c)
+                out.append((f"append session with the EVLR list edited ({edit})", dict(desc, edit=edit), bio.getvalue(), want))
+        except Exception as ex:
+            out.append((f"session raised ({mode}): {type(ex).__name__}", dict(desc, mode=mode), b"", None))
+    return out
+
+
 def search(ctx, seeds):
     failing, seen = [], set()
 
@@ -167,6 +270,20 @@ def search(ctx, seeds):
             probs = [f"the appended file cannot be read: {type(ex).__name__}: {ex}"]
         if probs:
             add("appended file: " + probs[0].split(" ")[0], a["desc"], "; ".join(probs[:3]))
+    for kind, desc, raw, want in faulted_sessions(ctx):
+        ctx.case(("faulted", raw), nontrivial=True)
+        ctx.count("faulted/edited sessions")
+        try:
+            probs = sessions.stats_oracle(raw)
+            if not probs and want is not None:
+                import laspy
+                got = lasio.rec_bytes(laspy.read(io.BytesIO(raw)).points)
+                if got != want:
+                    probs = [f"records: the file holds {len(got)} bytes of records, the accepted chunks are {len(want)} bytes"]
+        except Exception as ex:
+            probs = [f"the produced file cannot be read: {type(ex).__name__}: {ex}"]
+        if probs:
+            add(kind + ": " + probs[0].split(" ")[0], desc, "; ".join(probs[:3]))
     for label, las in (_INMEM if _INMEM is not None else inmem_cases(ctx)):
         if type(las).__name__ != "LasData":
             add("indexing a LasData did not return a LasData", {"op": label}, f"{label} returned a {type(las).__name__}: there is no header kept in sync with the selected points")
